@@ -62,8 +62,12 @@ static void one_case(vh::Ctx & c, uint64_t idx)
     e = {"sphere", 6378137.0, 6378137.0, 3};
   } else {
     double a = 6378137.0 * (1.0 + r.uni(-1e-3, 1e-3));
-    double f = r.coin(0.2) ? (r.coin() ? 0.0 : 1.0 / 290.0) : r.uni(0.0, 1.0 / 290.0);
-    e = {"random", a, a * (1.0 - f), 4};
+    int fk = (int)r.range(0, 9);
+    // flattening: uniform, the two ends, and log-spaced neighbourhoods of both ends (an almost
+    // spherical ellipsoid whose axes differ by micrometres .. metres is inside the quantifier)
+    double f = fk <= 1 ? (fk ? 0.0 : 1.0 / 290.0) : fk <= 3 ? r.logu(1e-14, 1e-3) : fk == 4 ? 1.0 / 290.0 - r.logu(1e-14, 1e-4) :
+      r.uni(0.0, 1.0 / 290.0);
+    e = {fk == 2 || fk == 3 ? "near_sphere" : "random", a, a * (1.0 - f), fk == 2 || fk == 3 ? 5 : 4};
   }
   // ---- category / coordinates
   int catk = r.range(0, 9);
@@ -144,6 +148,20 @@ static void one_case(vh::Ctx & c, uint64_t idx)
     return;
   }
 
+  // The checks are run on the point and then, with the same converter in the same thread, on a
+  // second point a log-spaced distance (1 mm .. 100 km) away: a conversion must not depend on the
+  // calls made before it (trajectory-like call sequences).
+  double lat0 = lat, lon0 = lon, h0 = h;
+  for (int leg = 0; leg < 2; ++leg) {
+  if (leg == 1) {
+    double dist = r.logu(1e-3, 1e5), az = r.coin(0.3) ? (r.coin() ? 0.0 : M_PI) : r.uni(0, 2 * M_PI);
+    const double LIM = 89.9 * M_PI / 180.0;
+    lat = std::max(-LIM, std::min(LIM, lat0 + dist * std::cos(az) / 6.37e6));
+    lon = clamp_lon(lon0 + dist * std::sin(az) / (6.37e6 * std::max(std::cos(lat0), 1e-3)));
+    h = std::max(-11000.0, std::min(100000.0, h0 + (r.coin(0.3) ? r.sign() * r.logu(1e-3, 1e3) : 0.0)));
+    c.cat("second_point_of_pair");
+    c.count("pair_second_points");
+  }
   // ---- forward against the definition
   GeodeticCoordinates g = romea::core::makeGeodeticCoordinates(lat, lon, h);
   Eigen::Vector3d X = conv.toECEF(g);
@@ -178,6 +196,7 @@ static void one_case(vh::Ctx & c, uint64_t idx)
   // ---- ECEF -> geodetic -> ECEF (on the library's own forward image)
   Eigen::Vector3d Xb = conv.toECEF(gb);
   c.expect_le("ecef_roundtrip_m", (Xb - X).norm(), 1e-3, "ecef_roundtrip", params, witb);
+  }
 }
 
 int main(int argc, char ** argv)
